@@ -76,12 +76,15 @@ type zzxABI struct {
 	calls        []string
 	failAt       string // method that returns an error ("" = none)
 	failIdx      int    // same, as an index into zzxABISteps (may be symbolic: compared lazily)
+	failOnce     bool   // the scripted failure fires once (the application is deterministic per block: a block that
+	                    // executed before executes again — used when a step re-applies an earlier block)
 	verifyResult int32
 	validators   []*labi.Validator
 	pre, cert    uint64
 	writesAtCommit, writesAtRevert int
 	database     *db.DB
 	commits, reverts int
+	commitsOK int // Commit calls that succeeded
 	commitExpected []byte
 	events       []*blockchain.Event
 }
@@ -97,6 +100,9 @@ func (a *zzxABI) step(name string) error {
 	}
 	for i, s := range zzxABISteps {
 		if i > 0 && s == name && a.failIdx == i {
+			if a.failOnce {
+				a.failIdx = 0
+			}
 			return zzxErr
 		}
 	}
@@ -157,6 +163,7 @@ func (a *zzxABI) Commit(req *labi.CommitRequest) (*labi.CommitResponse, error) {
 	if err := a.step("Commit"); err != nil {
 		return nil, err
 	}
+	a.commitsOK++
 	return &labi.CommitResponse{StateRoot: req.ExpectedStateRoot}, nil
 }
 func (a *zzxABI) Revert(req *labi.RevertRequest) (*labi.RevertResponse, error) {
